@@ -18,7 +18,7 @@ from .values import *
 
 TIERS = {
     # max_dev: bound on decisions per path that deviate from the default option
-    "quick": {"max_dev": 2, "loop_unroll": 1},
+    "quick": {"max_dev": 3, "loop_unroll": 1},
     "thorough": {"max_dev": None, "loop_unroll": 2},
 }
 
